@@ -915,7 +915,8 @@ func (m *Machine) floorDiv(x *term.T, k int64) *term.T {
 
 // timeTrunc models Time.Truncate / Time.Round: both work on the absolute time since
 // year 1, i.e. on ns + K with K = 62135596800e9 (which does not fit 64 bits), so
-//   r = (floormod(ns, d) + K mod d) mod d
+//
+//	r = (floormod(ns, d) + K mod d) mod d
 func (m *Machine) timeTrunc(t TimeV, d *term.T, round bool) Value {
 	tb := m.tb
 	if !d.IsConst() {
